@@ -58,7 +58,7 @@ def contents(st):
     return [x["id"] for x in xs], list(ys)
 
 
-def check_invariant(kind, size, targets, n, st):
+def check_invariant(kind, size, targets, n, st, ylist=None):
     """C07 evaluated directly on a real storage after n tagged updates (x = {'id': i}, y = 1000 + i); returns None or text"""
     ids, ys = contents(st)
     cap = {"batch": n, "sequence": 1}.get(kind, size)
@@ -71,7 +71,7 @@ def check_invariant(kind, size, targets, n, st):
     if len(st) != len(ids):
         return f"len(storage)={len(st)} but {len(ids)} instances stored"
     if targets:
-        if ys != [1000 + i for i in ids]:
+        if ys != [(1000 + i if ylist is None else ylist[i]) for i in ids]:
             return f"targets not aligned with instances: ids={ids} ys={ys}"
     elif ys:
         return f"targets kept although store_targets=False: {ys}"
